@@ -73,6 +73,13 @@ func Requests(full bool) []davtree.Req {
 			add(davtree.Req{Method: m, Path: p})
 		}
 		if p != "/" {
+			for _, f := range []string{"dotseg", "dblslash", "updown"} {
+				add(davtree.Req{Method: "GET", Path: p, PathForm: f})
+				add(davtree.Req{Method: "PUT", Path: p, PathForm: f, HasBody: true, Body: "c2"})
+				add(davtree.Req{Method: "DELETE", Path: p, PathForm: f})
+				add(davtree.Req{Method: "MKCOL", Path: p, PathForm: f})
+				add(davtree.Req{Method: "PROPFIND", Path: p, PathForm: f, Depth: "1"})
+			}
 			add(davtree.Req{Method: "PROPFIND", Path: p, Depth: "0", TrailingSlash: true})
 			add(davtree.Req{Method: "DELETE", Path: p, TrailingSlash: true})
 			add(davtree.Req{Method: "MKCOL", Path: p, TrailingSlash: true})
@@ -94,6 +101,14 @@ func Requests(full bool) []davtree.Req {
 			for _, d := range UniversePaths {
 				for _, h := range hdrs {
 					add(davtree.Req{Method: m, Path: s, Dest: d, DestForm: "path", Depth: h.d, Overwrite: h.o})
+				}
+				for _, f := range []string{"dotseg", "dblslash", "updown"} {
+					if d != "/" {
+						add(davtree.Req{Method: m, Path: s, Dest: d, DestForm: f})
+					}
+					if s != "/" && (f == "dotseg" || full) {
+						add(davtree.Req{Method: m, Path: s, PathForm: f, Dest: d, DestForm: "path"})
+					}
 				}
 				add(davtree.Req{Method: m, Path: s, Dest: d, DestForm: "url"})
 				add(davtree.Req{Method: m, Path: s, Dest: d, DestForm: "slash"})
@@ -272,7 +287,10 @@ func RandReq(r *rand.Rand, t davtree.Tree, names []string) davtree.Req {
 	if r.Intn(2) == 0 {
 		m = "MOVE"
 	}
-	req := davtree.Req{Method: m, Path: p, Dest: pickPath(r, t, names), DestForm: []string{"path", "path", "url"}[r.Intn(3)]}
+	req := davtree.Req{Method: m, Path: p, Dest: pickPath(r, t, names), DestForm: []string{"path", "path", "url", "path", "dotseg", "dblslash", "updown"}[r.Intn(7)]}
+	if r.Intn(8) == 0 {
+		req.PathForm = []string{"dotseg", "dblslash", "updown"}[r.Intn(3)]
+	}
 	switch r.Intn(6) {
 	case 0:
 		req.Overwrite = "F"
